@@ -11,7 +11,7 @@ def check(tier, seed, replay=None):
     run.cov["trusted_base"] = wire.WIRE_TRUSTED + ["the reference encoding enc (coq/wire/Wire.v) as the statement of the Bebop wire format"]
     broken = None
     try:
-        wire.maybe_proof(run, "props/C03.v", ["C03"])
+        wire.maybe_proof(run, "props/C03.v", ["C03", "C03_prims"])
     except BrokenTie as e:
         broken = e
     found = False
